@@ -1,11 +1,11 @@
 SPECIFICATION Spec
 CONSTANTS
-  Scenarios <- QuickScenarios
-  Ticks = FALSE
+  Scenarios <- C07Scenarios
+  Ticks = TRUE
   SkipFix = TRUE
   CctFix = TRUE
   SelfFailFix = TRUE
-  FlushFix = TRUE
+  FlushFix = FALSE
   QMax = 100
   PPInterval = 2
   TestMode = TRUE
